@@ -164,8 +164,8 @@ def classes_of(spec):
 # ----------------------------------------------------------------------------
 def c10_insitu_cases(tier, rng):
     cases = []
-    n = 6 if tier == "quick" else 40
-    kinds = ["ramp", "slow_ramp", "piecewise", "osc", "screening", "screening_ramp"]
+    n = 8 if tier == "quick" else 48
+    kinds = ["ramp", "slow_ramp", "piecewise", "osc", "screening", "screening_ramp", "pulse_back_to_start", "therm_ramp"]
     for k in range(n):
         kind = kinds[k % len(kinds)]
         nt = int(rng.choice([0, 2]))
@@ -189,6 +189,14 @@ def c10_insitu_cases(tier, rng):
             sc = _scales(dev, o)
             # relative change per step 1e-3/150 < 1e-5 (below allclose), 0.27 % over the run
             A = {"kind": "ramp", "B": 0.4 * sc.Bc2 / sc.fu, "tmin": 0.0, "tmax": 150.0, "initial": 1.0, "final": 2.0}
+        elif kind == "pulse_back_to_start":
+            sc = _scales(dev, o)
+            T = o["solve_time"]
+            A = {"kind": "piecewise", "B": 0.3 * sc.Bc2 / sc.fu, "times": [0.2 * T, 0.5 * T], "values": [0.0, 1.0, 0.0]}
+        elif kind == "therm_ramp":
+            # thermalisation with a time-dependent field: the clock restarts at t = 0 for the recorded stage
+            o["skip_time"] = 0.4 * o["solve_time"]
+            A = field_spec(rng, dev, o, "ramp", b=0.3)
         elif kind == "screening":
             A = field_spec(rng, dev, o, "uniform", b=0.2)
         elif kind == "screening_ramp":
